@@ -121,15 +121,18 @@ def run_nonmarkov_sis(spec, props=("C13",)):
     I0 = list(spec["I0"])
     tmin = num(spec.get("tmin", 0)); tmax = num(spec.get("tmax", 6.0))
     DUR = spec.get("durations", [1.0, 2.5])
-    base = spec.get("delays", [0.3, 0.8])
+    base = spec.get("delays", [0.3, 0.8, 1.9])
     budget = spec.get("budget", 3)
     form = spec.get("form", "sep")
     full = bool(spec.get("full", True))
     cls = form
 
     def lists(d):
-        xs = [b for b in base if b < d]
-        return [[]] + [xs[:k] for k in range(1, len(xs) + 1)]
+        # [], [a], [a,b], [a,c]: a<b<c; c lies beyond the shorter duration (the property speaks of *any* listed
+        # delay; the documented contract "before recovery" is not assumed) and c-a exceeds the shorter duration,
+        # so a second attempt of one list can find the target susceptible again
+        a, b, c = base[0], base[1], base[2]
+        return [[], [a], [a, b], [a, c]]
 
     def call(orc, full_):
         log = orc.ctx.setdefault("log", [])
@@ -484,7 +487,7 @@ def specs_nonmarkov_sis(tier):
                 for full in (True, False):
                     b = (4 if thorough else 3) if n <= 3 else 3
                     if len(es) >= 3 and not thorough:
-                        b = 3
+                        b = 2
                     out.append(dict(fn="fast_nonMarkov_SIS", n=n, edges=es, I0=list(I0), tmax=6.0, budget=b,
                                     form=form, full=full))
             # exact hit: the first recovery (duration 1+2^-11) lands exactly on tmax; shifted tmin
